@@ -64,6 +64,15 @@ ScenarioSpace(maxL) ==
 
 ViaClient(sc) == sc.connFault # "none" \/ sc.retryOK
 
+\* Entry points through which a request with a body stream reaches a connection.  The machine
+\* below has no entry-point parameter: whichever entry is used, the peer that answers receives
+\* exactly the stream's bytes and the stream is closed exactly once.  (The pipelining client has
+\* no retry loop and runs the write on its own goroutine; panics of Read are replayed through
+\* the calling goroutine's entry points only.)
+ClientEntries == << "HostClient.Do", "HostClient.DoTimeout", "HostClient.DoDeadline",
+                    "Client.Do", "Client.DoTimeout", "Client.DoDeadline",
+                    "PipelineClient.Do", "PipelineClient.DoTimeout", "PipelineClient.DoDeadline" >>
+
 InitSt(sc) ==
   [ sc |-> sc, phase |-> "attached", attached |-> TRUE, i |-> 1,
     delivered |-> 0,        \* body bytes handed to the writer so far
